@@ -424,3 +424,15 @@ def r_sib_r_c08_8(ctx):
     from .c02 import r5 as no_read_ahead
     no_read_ahead(ctx)
 
+
+
+@rule("R-C08-9", min_instances=4, title="a lost connection is noticed on every timeout configuration: the transport wrapper turns an end of stream into connection-closed (never returns empty data), also for a non-blocking socket")
+def r_sib_r_c08_9(ctx):
+    from .c17 import r5 as eof_raises
+    eof_raises(ctx)
+
+
+@rule("R-C08-10", min_instances=2, title="after a failed send the object still answers: the send lock is released on every exit of send_frame, so later sends raise connection-closed and close() returns (neither blocks on a lock the failed call kept)")
+def r_sib_r_c08_10(ctx):
+    from .c12 import r10 as locks_released
+    locks_released(ctx)
